@@ -114,8 +114,14 @@ var vkPrimerClient = netip.MustParseAddrPort("203.0.113.9:5353")
 
 // vkPrimerPkt is a strict-path-eligible EDNS query (DO, AD, large size, NSID request) with a cookie distinct
 // from the alphabet's.
-func vkPrimerPkt() []byte {
-	p := vkBasePkt("hit.t.", dns.TypeA)
+// vkPrimerPkts: the other client's queries served on the slab just before. The second one is answered with AD=1 and a
+// signed RRset: its reply leaves every header bit a later reply could inherit, and more bytes, on the slab.
+func vkPrimerPkts() [][]byte { return [][]byte{vkPrimerPkt(), vkPrimerPktFor("sig.t.")} }
+
+func vkPrimerPkt() []byte { return vkPrimerPktFor("hit.t.") }
+
+func vkPrimerPktFor(name string) []byte {
+	p := vkBasePkt(name, dns.TypeA)
 	p.ID = 0x7e57
 	p.AD = true
 	p.OPT, p.DO, p.Size = true, true, 4096
